@@ -577,7 +577,7 @@ def t10(ctx, rid):
     n = 0
     ORD = ('cmp', 'partial_cmp', 'lt', 'le', 'gt', 'ge', 'max', 'min', 'clamp')
     for f in prog.fns.values():
-        if not f.file.startswith('src/blob/index/'):
+        if not (f.file.startswith('src/blob/index/') or f.file == 'src/filter/range.rs'):
             continue
         for c in f.calls:
             if c.bb not in f.reachable() or c.name not in ORD or c.path not in ('std::cmp::Ord::' + c.name, 'std::cmp::PartialOrd::' + c.name):
